@@ -52,6 +52,7 @@ def run(ctx):
            + txscen.repeats(rng, 80 if quick else 1000) + txscen.repeats_with_lone_burst(rng, 20 if quick else 300) + txscen.stale_history(rng, 40 if quick else 400)
            + txscen.many_repeats(rng, 20 if quick else 100))
     mism, fam, nontriv, samples = base.run_family(ctx, "C05", txoracle.check_c05, scs, rng)
+    ctx.coverage["reuse_after_reset_same_messages"] = rxlib.reset_reuse(ctx, rng.fork("reset"), 3 if quick else 20, lambda t: t.startswith("TM"), True, "messages")
     ctx.coverage["audio_repeat_scenarios_ok"] = audio_repeats(ctx, rng.fork("audio"), 3 if quick else 24)
     ctx.coverage.update({
         "evaluations": len(scs), "distinct_nontrivial": nontriv,
